@@ -38,12 +38,14 @@ def run(ctx):
         ctx.ob("C09.G.default-rule-otherwise", f.key, "default rule for non-enums", ok, "other cases %s" % [(c, DF in v) for c, v in oth])
     f = ctx.fn("darling_core::options::input_variant::InputVariant::with_inherited")
     if f:
-        ren = ctx.find_calls(f, r"^ident_case::RenameRule::apply_to_")
-        ctx.ob("C09.G.variant-rule-callee", f.key, "rename call", [mir.callee_of(t) for _, t in ren] == ["ident_case::RenameRule::apply_to_variant"], "%s" % [mir.callee_of(t) for _, t in ren])
+        ren = ctx.find_calls_deep(f, r"^ident_case::RenameRule::apply_to_", helpers=1)
+        ctx.ob("C09.G.variant-rule-callee", f.key, "rename call", [mir.callee_of(t) for _, t, _ in ren] == ["ident_case::RenameRule::apply_to_variant"], "%s" % [mir.callee_of(t) for _, t, _ in ren])
+        # (the container may be handed over as `&Core` or as `Option<&Core>` unwrapped on the way)
+        PARENT = r"(?:a2|\(a2 as Some\)\.0|parent)"
         common.inherit_when_absent(ctx, "C09.G.explicit-name-wins", "C09.G.variant-name-value", f, "attr_name",
-                                   r"^core::option::Option::Some\{ident_case::RenameRule::apply_to_variant\(a2\.rename_rule, <T as alloc::string::ToString>::to_string\(self\.ident\)\)\}$")
+                                   r"Some\{ident_case::RenameRule::apply_to_variant\(" + PARENT + r"(?:\.|__)rename_rule, <T as alloc::string::ToString>::to_string\((?:self(?:\.|__))?ident\)\)\}$")
         common.inherit_when_absent(ctx, "C09.G.unknown-fields-inherited", "C09.G.unknown-fields-value", f, "allow_unknown_fields",
-                                   r"^core::option::Option::Some\{unwrap_or_default\(a2\.allow_unknown_fields\)\}$")
+                                   r"Some\{unwrap_or_default\(" + PARENT + r"(?:\.|__)allow_unknown_fields\)\}$")
     # the bare-word variant: word = Some(true) and not skipped
     f = ctx.fn("darling_core::options::from_meta::FromMetaOptions::from_word")
     if f:
@@ -105,8 +107,14 @@ def run(ctx):
                 txt = T.text(s)
                 if not txt.startswith("⟨str⟩ =>"):
                     continue
-                pcs = ctx.pc_strs(g, T.by_stream[s][0].blk)
-                shapes[txt] = pcs
+                # one arm template per style, or one shared `#name => { #body }` whose body is chosen
+                # per style: each choice stands under the conditions of the place that makes it
+                for toks_, sites_ in T.instances(s):
+                    pcs = [set()]
+                    for b_ in (T.by_stream[s][0].blk,) + tuple(sites_):
+                        pcs = [x | set(y) for x in pcs for y in (ctx.pc_strs(g, b_) or [set()])]
+                    pcs = [d for d in pcs if common.consistent(d)]
+                    shapes[" ".join(toks_)] = pcs
         ctx.ob("C09.G.skipped-variant-emits-nothing", f.key, "all %d template events" % n, n > 10, "every template event of the arm generator is guarded by skip = false")
         for txt, pcs in shapes.items():
             kind = None
@@ -118,10 +126,16 @@ def run(ctx):
                 kind = "struct"
             elif name.startswith("variant::UnitMatchArm") and (txt.endswith("=> ⟨proc_macro2::TokenStream⟩ ,") or txt.endswith('=> :: darling :: export :: Err ( :: darling :: Error :: unsupported_format ( "literal" ) ) ,')):
                 kind = "other"
-            if kind in arms:
+            NEWTYPE = lambda d: ctx._sat(d, r"is_newtype\(self\.0\.data\)=True") or (ctx._sat(d, r"^discr\(self\.0\.data\.style\)=Tuple$") and ctx._sat(d, r"len\(self\.0\.data(\.fields)?\)=1$"))
+            NOT_NEWTYPE = lambda d: ctx._sat(d, r"is_newtype\(self\.0\.data\)=False") or ctx._sat(d, r"^discr\(self\.0\.data\.style\)=Struct$") or \
+                (ctx._sat(d, r"^discr\(self\.0\.data\.style\)=Tuple$") and ctx._sat(d, ("ne", r"len\(self\.0\.data(\.fields)?\)$", 1)))
+            if kind == "newtype" and kind in arms:
+                # (is_newtype, or its definition: a tuple body with exactly one field)
+                ctx.ob("C09.G.arm-for-own-style", f.key, "%s arm" % kind, bool(pcs) and all(NEWTYPE(d) for d in pcs), "%s arm emitted under %s" % (kind, [sorted(d) for d in pcs]))
+            elif kind in arms:
                 ctx.ob("C09.G.arm-for-own-style", f.key, "%s arm" % kind, bool(pcs) and all(ctx._sat(d, arms[kind]) for d in pcs), "%s arm emitted under %s" % (kind, [sorted(d) for d in pcs]))
             elif kind == "other":
-                ok = all(ctx._sat(d, ("ne", r"^discr\(self\.0\.data\.style\)$", "Unit")) and ctx._sat(d, r"is_newtype\(self\.0\.data\)=False") for d in pcs)
+                ok = all(ctx._sat(d, ("ne", r"^discr\(self\.0\.data\.style\)$", "Unit")) and NOT_NEWTYPE(d) for d in pcs)
                 ctx.ob("C09.G.arm-for-own-style", f.key, "non-unit non-newtype string arm rejects", ok, "under %s" % [sorted(d) for d in pcs])
             else:
                 ctx.ob("C09.G.arm-for-own-style", f.key, "unrecognised arm", False, txt[:200])
